@@ -46,6 +46,23 @@ _BASE = {}
 def base_matrices(N):
     if N in _BASE:
         return _BASE[N]
+    if N >= 4:
+        # one small-integer matrix per PIVOT VECTOR that scipy.linalg.lu_factor produces (all cycle types of the row
+        # permutation, e.g. two disjoint interchanges), two representatives each; searched deterministically
+        import random
+        import scipy.linalg
+        rng = random.Random(4711 + N)
+        reps = {}
+        for _ in range(40000):
+            A = np.array([rng.choice((-2, -1, 0, 1, 2, 3)) for _ in range(N * N)], dtype=float).reshape(N, N)
+            if abs(np.linalg.det(A)) < 0.5 or np.linalg.cond(A) > 40:
+                continue
+            piv = tuple(int(v) for v in scipy.linalg.lu_factor(A)[1])
+            if len(reps.setdefault(piv, [])) < 2:
+                reps[piv].append(A)
+        out = [A for piv in sorted(reps) for A in reps[piv]]
+        _BASE[N] = out
+        return out
     ent = {1: (-1, 1, 2), 2: (-1, 0, 1, 2), 3: (-1, 0, 1)}[N]
     out = []
     for flat in itertools.product(ent, repeat=N * N):
@@ -69,7 +86,7 @@ def dyfill(shape, off):
 
 def units(tier, seed):
     us = [{'kind': 'dot', 'tier': tier, 'seed': seed}, {'kind': 'outer', 'tier': tier, 'seed': seed}]
-    for N in (1, 2, 3):
+    for N in (1, 2, 3, 4):
         nb = len(base_matrices(N))
         for lo in range(0, nb, BATCH):
             for fn in ('inv', 'solve', 'det'):
@@ -255,8 +272,11 @@ def check_residual(c, name, A, X, B, case, condmax):
             res = np.abs(tofl(R[d] - Bs[d]))
             maj = tofl(M[d]) + np.abs(B[d, p])
             cond = np.linalg.cond(A[0, p])
-            tol = 64 * EPS * cond * (maj + 1e-300) * (d + 1)
-            rel = float(np.max(res / (cond * (maj + 1e-300))))
+            # entry-wise majorant plus a norm-wise floor: an entry of X whose exact value is 0 comes back as 1e-17 noise, and an
+            # entry-wise majorant built from that noise alone is as small as the noise
+            mjn = maj + float(np.max(maj)) + 1e-300
+            tol = 64 * EPS * cond * mjn * (d + 1)
+            rel = float(np.max(res / (cond * mjn)))
             c.out['maxima']['residual_over_cond_majorant'] = max(c.out['maxima'].get('residual_over_cond_majorant', 0.0), rel)
             if not np.all(res <= tol):
                 c.fail('C07|%s|residual|first_bad_order=%d' % (name, d), dict(case, direction=p, A0=A[0, p].tolist()),
